@@ -21,7 +21,7 @@ pub fn run(env: &Env) -> Report {
     let pools = WordPools::new(&env.data);
     let seed = env.a.seed;
     let nunits = 32;
-    let per = if env.quick() { 12 } else { 400 };
+    let per = if env.quick() { 40 } else { 400 };
     let reps = par_map(nunits, |ui| {
         let mut rep = Report::new("c09");
         let mut rng = Rng::new(seed.wrapping_mul(40503) ^ (ui as u64) << 18);
@@ -416,7 +416,7 @@ pub fn run_c11(env: &Env) -> Report {
     let lay = mk_layouts(env);
     let seed = env.a.seed;
     let nunits = 32;
-    let per = if env.quick() { 14 } else { 700 };
+    let per = if env.quick() { 45 } else { 700 };
     let reps = par_map(nunits, |ui| {
         let mut rep = Report::new("c11");
         let mut rng = Rng::new(seed.wrapping_mul(134775813) ^ (ui as u64) << 14);
